@@ -1,6 +1,8 @@
 package engines
 
 import (
+	"bngvet/internal/lin"
+	"bngvet/internal/bounds"
 	"fmt"
 	"go/token"
 	"go/types"
@@ -360,6 +362,48 @@ func c11ParserConsumesAll(c *Ctx) {
 			}
 		}
 	}
+	// the loop condition itself must not stop early: when it fails, fewer than two bytes (one option header) remain.
+	// "Remaining" is read off the loop body: the smallest index at which the body reads the scanned slice.
+	e := bounds.NewFn(f)
+	for _, b := range f.Blocks {
+		for _, h := range b.Succs {
+			if !h.Dominates(b) {
+				continue
+			}
+			body := loopBody(h, b)
+			var base ssa.Value
+			var minIdx lin.Form
+			have := false
+			for x := range body {
+				for _, in := range x.Instrs {
+					ia, isIA := in.(*ssa.IndexAddr)
+					if !isIA {
+						continue
+					}
+					if sl, isSl := ia.X.Type().Underlying().(*types.Slice); !isSl || !isByteType(sl.Elem()) {
+						continue
+					}
+					idx := e.Eval(ia.Index)
+					if d := idx.Sub(minIdx); !have || (d.IsConst() && d.K < 0) {
+						base, minIdx, have = ia.X, idx, true
+					}
+				}
+			}
+			if !have {
+				continue
+			}
+			for _, ex := range h.Succs {
+				if body[ex] || len(ex.Instrs) == 0 {
+					continue
+				}
+				// at the exit: minIdx + 1 >= len(base), i.e. at most one byte is left unread
+				goal := minIdx.AddK(1).Sub(e.Len(base))
+				exhausted := e.Prove(ex.Instrs[0], goal)
+				r.Check("C11.I9.parserConsumesAll", load.ShortFunc(f), "loop condition fails only when no option header is left", c.P.Pos(instrPos(h.Instrs[len(h.Instrs)-1])), exhausted,
+					"the scanning loop can stop while a complete two-byte option header is still unread ("+e.Str(goal)+" >= 0 is not implied at the exit): a trailing option without a value is dropped before validation, so it is neither acknowledged as sent nor rejected")
+			}
+		}
+	}
 	r.Check("C11.I9.parserConsumesAll", load.ShortFunc(f), "loop exits: condition or error", where, ok && n > 0,
 		"the scanning loop can be left early with a successful result: the options after that point are never validated, so a Configure-Request carrying an unacceptable option behind the stop marker is acknowledged with a shorter list and the automaton opens on it")
 }
@@ -509,4 +553,9 @@ func c11MatchIdOwner(c *Ctx) {
 	if n == 0 || nw == 0 {
 		r.Check("C11.I10.matchIdOnlyOnRequest", "pkg/pppoe", "packet originators and writers of lastIdentifier found", "-", false, "anchors not found")
 	}
+}
+
+func isByteType(t types.Type) bool {
+	b, ok := t.Underlying().(*types.Basic)
+	return ok && (b.Kind() == types.Uint8 || b.Kind() == types.Byte)
 }
